@@ -42,6 +42,7 @@ def main(argv):
         'C17': lambda: props_def.check_c17(tier, seed),
         'C19': lambda: props_def.check_c19(tier, seed),
         'C18': lambda: props_def.check_c18(tier, seed),
+        'C14': lambda: props_lib.check_c14(tier, seed),
         'C15': lambda: props_lib.check_c15(tier, seed),
         'C12': lambda: props_lex.check_c12(tier, seed),
         'C13': lambda: props_lex.check_c13(tier, seed),
